@@ -3,7 +3,7 @@ import Munge.Model.PrimLaws
 import Munge.Model.SpecV3
 import Munge.Lemmas.Base64
 /- Helper lemmas about the credential model (group C). -/
-namespace Munge.Cred
+namespace Munge.Cred.C
 open Munge.Gen.Dec Munge.C
 
 /-! ### generic case-analysis helpers (the `split` tactic is unreliable on the big parser terms) -/
@@ -432,4 +432,4 @@ theorem dec_validate_replay_err (a b c d e f : Int) :
   repeat' split
   all_goals simp
 
-end Munge.Cred
+end Munge.Cred.C
